@@ -295,67 +295,56 @@ Proof.
 Qed.
 
 (* ============================================================================================== *)
-(* 7. validation_pattern: what `re.match(test_pattern p, x)` decides                               *)
+(* 7. validation_pattern: the test re.fullmatch(p, x) is membership in the language of p           *)
 (* ============================================================================================== *)
-(* (a) every pattern of the subset: a submission the pattern matches ENTIRELY passes the test *)
-Theorem validation_complete : forall T p r x,
-  parse p = Some r -> in_language T r x -> re_match_text T (test_pattern p) x = true.
-Proof.
-  intros T p r x Hp Hl. unfold test_pattern. cbv zeta. destruct (py_endswith p [94]); cbn [negb].
-  - unfold re_match_text. rewrite Hp. apply re_match_spec. exists (length x). exact Hl.
-  - destruct (parse_run p r Hp) as (st & Hr & Hm & Hs & ->).
-    unfold re_match_text. rewrite (parse_dollar p st Hr Hm Hs). apply re_match_spec. exists (length x).
-    unfold in_language in Hl. rewrite frame_re_branches in Hl.
-    assert (N1 : branches (p_cur st) <> []) by (unfold branches; destruct (f_alts (p_cur st)); discriminate).
-    assert (N2 : branches_anchored (p_cur st) <> []) by (unfold branches_anchored; destruct (f_alts (p_cur st)); discriminate).
-    apply (Match_alt_of T x _ O (length x) N1) in Hl. destruct Hl as (b & Hb & Hm').
-    apply (Match_alt_of T x _ O (length x) N2).
-    unfold branches in Hb. apply in_app_or in Hb. destruct Hb as [Hb|[<-|[]]].
-    + exists b. split; [unfold branches_anchored; apply in_or_app; left; exact Hb | exact Hm'].
-    + exists (Cat (flush (p_cur st)) Eol). split; [unfold branches_anchored; apply in_or_app; right; left; reflexivity|].
-      econstructor; [exact Hm'|]. constructor. left. apply <- at_end_eq. reflexivity.
-Qed.
-
-(* (b) patterns WITHOUT a top-level alternation bar that do not end in "^": passing the test is a full match *)
-Theorem validation_sound_partial : forall T p r x,
-  parse p = Some r -> top_level_alternation p = false -> py_endswith p [94] = false -> ~ In 10 x ->
-  (re_match_text T (test_pattern p) x = true <-> in_language T r x).
-Proof.
-  intros T p r x Hp Ht He Hn. unfold test_pattern. cbv zeta. rewrite He. cbn [negb].
-  unfold re_match_text. rewrite (parse_dollar_no_alternation p r Hp Ht). apply anchored_match_is_fullmatch. exact Hn.
-Qed.
+Theorem fullmatch_text_is_language : forall T p r x, parse p = Some r ->
+  (re_fullmatch_text T p x = true <-> in_language T r x).
+Proof. intros T p r x Hp. unfold re_fullmatch_text. rewrite Hp. apply re_fullmatch_spec. Qed.
 
 Lemma not_true_false : forall b, b <> true -> b = false.
 Proof. intros [|] H; [contradiction H; reflexivity | reflexivity]. Qed.
 
-(* the two halves at the level of check_response; `ok_expect`: accept_any mode, or the author's expect is itself
-   matched entirely by the pattern (otherwise the author gets a ConfigError, validation_expect_config_error) *)
-Theorem validation_accepts_full_matches : forall T rf cfg p r a e s,
+Lemma not_in_language : forall T r s, re_fullmatch T r s = false -> ~ in_language T r s.
+Proof. intros T r s H Hl. apply re_fullmatch_spec in Hl. congruence. Qed.
+
+(* the sentence of the property about validation, in full: for EVERY pattern of the subset (top-level alternation and
+   anchors included) and in every mode -- accept_any, accept_nonempty, normal mode with an expect that is itself in the
+   language (otherwise the author gets a ConfigError, validation_expect_config_error) -- the submission is refused as
+   explain_validation prescribes when the pattern does not match the ENTIRE cleaned submission, and is otherwise graded
+   exactly as if there were no pattern *)
+Theorem validation_fullmatch : forall T rm cfg p r a e s,
   cfg_validation_pattern cfg = Some p -> parse p = Some r ->
   (accept_any_mode cfg = true \/ in_language T r (clean_input T cfg e)) ->
-  in_language T r (clean_input T cfg s) ->
-  check_response T (re_match_text T) rf cfg a e s = check_response T (re_match_text T) rf (without_pattern cfg) a e s.
+  (~ in_language T r (clean_input T cfg s) ->
+     check_response T rm (re_fullmatch_text T) cfg a e s
+     = refusal cfg (cfg_explain_validation cfg) (cfg_invalid_msg cfg)) /\
+  (in_language T r (clean_input T cfg s) ->
+     check_response T rm (re_fullmatch_text T) cfg a e s
+     = check_response T rm (re_fullmatch_text T) (without_pattern cfg) a e s).
 Proof.
-  intros T rf cfg p r a e s Hc Hp He Hs. apply (validation_pass T (re_match_text T) rf cfg p Hc).
-  - apply (validation_complete T p r _ Hp Hs).
-  - destruct He as [He|He]; [left; exact He | right; apply (validation_complete T p r _ Hp He)].
+  intros T rm cfg p r a e s Hc Hp He.
+  assert (Hexp : accept_any_mode cfg = true \/ re_fullmatch_text T p (clean_input T cfg e) = true).
+  { destruct He as [He|He]; [left; exact He | right; apply (fullmatch_text_is_language T p r _ Hp); exact He]. }
+  split; intro Hs.
+  - apply (validation_refusal T rm (re_fullmatch_text T) cfg p Hc); [|exact Hexp].
+    apply not_true_false. intro H. apply Hs. apply (fullmatch_text_is_language T p r _ Hp). exact H.
+  - apply (validation_pass T rm (re_fullmatch_text T) cfg p Hc); [|exact Hexp].
+    apply (fullmatch_text_is_language T p r _ Hp). exact Hs.
 Qed.
 
-Theorem validation_fullmatch_partial : forall T rf cfg p r a e s,
-  tables_ok T -> cfg_validation_pattern cfg = Some p -> parse p = Some r ->
-  top_level_alternation p = false -> py_endswith p [94] = false ->
-  (accept_any_mode cfg = true \/ in_language T r (clean_input T cfg e)) ->
-  ~ in_language T r (clean_input T cfg s) ->
-  check_response T (re_match_text T) rf cfg a e s = refusal cfg (cfg_explain_validation cfg) (cfg_invalid_msg cfg).
+(* normal mode, expect outside the language: ConfigError *)
+Theorem validation_expect_outside_language : forall T rm cfg p r a e s,
+  cfg_validation_pattern cfg = Some p -> parse p = Some r -> accept_any_mode cfg = false ->
+  ~ in_language T r (clean_input T cfg e) ->
+  check_response T rm (re_fullmatch_text T) cfg a e s = RaiseConfig.
 Proof.
-  intros T rf cfg p r a e s HT Hc Hp Ht Hend He Hs. apply (validation_refusal T (re_match_text T) rf cfg p Hc).
-  - apply not_true_false. intro H. apply Hs.
-    apply (validation_sound_partial T p r _ Hp Ht Hend (clean_no_newline T cfg s HT)). exact H.
-  - destruct He as [He|He]; [left; exact He | right; apply (validation_complete T p r _ Hp He)].
+  intros T rm cfg p r a e s Hc Hp Ha He. apply (validation_expect_config_error T rm (re_fullmatch_text T) cfg p Hc); [exact Ha|].
+  apply not_true_false. intro H. apply He. apply (fullmatch_text_is_language T p r _ Hp). exact H.
 Qed.
 
 (* ============================================================================================== *)
-(* 8. the full-match claim is FALSE for the code as written                                        *)
+(* 8. regression: the inputs that refuted the full-match claim before /repo commit 976ea10          *)
+(*    (the code then tested re.match(pattern + "$", x), pattern unchanged when it ended in "^")     *)
 (* ============================================================================================== *)
 (* a concrete table instance: no case folding, whitespace = tab, LF, CR, space *)
 Definition T_plain : tables :=
@@ -369,66 +358,36 @@ Proof.
   intros c Hc. cbn. constructor; [exact Hc | constructor].
 Qed.
 
-(* the property's sentence about validation, for accept_any graders:
-   "a validation_pattern must match the entire cleaned submission, otherwise the response is refused in the way
-   explain_validation prescribes" *)
-Definition validation_is_fullmatch : Prop :=
-  forall T cfg p r a e s,
-    tables_ok T -> cfg_validation_pattern cfg = Some p -> parse p = Some r -> accept_any_mode cfg = true ->
-    ~ in_language T r (clean_input T cfg s) ->
-    check_response T (re_match_text T) (re_fullmatch_text T) cfg a e s
-    = refusal cfg (cfg_explain_validation cfg) (cfg_invalid_msg cfg).
-
 Definition cfg_any (p : str) : config :=
   mkConfig false true true false true true false 0 0 ExErr (Some p) ExErr [98; 97; 100].
-
-Lemma not_in_language : forall T r s, re_fullmatch T r s = false -> ~ in_language T r s.
-Proof. intros T r s H Hl. apply re_fullmatch_spec in Hl. congruence. Qed.
-
-(* pattern "a|b", submission "ab": accepted *)
-Theorem validation_fullmatch_refuted : ~ validation_is_fullmatch.
-Proof.
-  intro H.
-  specialize (H T_plain (cfg_any [97; 124; 98]) [97; 124; 98] (Alt (Cat Eps (lit 97)) (Cat Eps (lit 98)))
-                inferred_answer [] [97; 98] T_plain_ok eq_refl eq_refl eq_refl).
-  assert (N : ~ in_language T_plain (Alt (Cat Eps (lit 97)) (Cat Eps (lit 98)))
-                (clean_input T_plain (cfg_any [97; 124; 98]) [97; 98])).
-  { apply not_in_language. vm_compute. reflexivity. }
-  specialize (H N). vm_compute in H. discriminate.
-Qed.
-
-(* pattern "^" (ends with "^", so no "$" is appended at all), submission "x": accepted *)
-Theorem validation_fullmatch_refuted_trailing_caret :
-  exists T cfg p r a e s,
-    tables_ok T /\ cfg_validation_pattern cfg = Some p /\ parse p = Some r /\ accept_any_mode cfg = true /\
-    ~ in_language T r (clean_input T cfg s) /\
-    check_response T (re_match_text T) (re_fullmatch_text T) cfg a e s = Ret (credit_of a).
-Proof.
-  exists T_plain, (cfg_any [94]), [94], (Cat Eps Bol), inferred_answer, [], [120].
-  repeat split; try reflexivity; [apply T_plain_ok|]. apply not_in_language. vm_compute. reflexivity.
-Qed.
-
-(* normal mode: expect "a" (matched entirely by "a|b"), submission "ax", explain_validation='err':
-   the property demands an InvalidInput error, the code grades it silently as wrong *)
 Definition cfg_normal (p : str) : config :=
   mkConfig false true true false true false false 0 0 ExErr (Some p) ExErr [98; 97; 100].
 
-Theorem validation_refusal_refuted_normal_mode :
-  exists T cfg p r a e s,
-    tables_ok T /\ cfg_validation_pattern cfg = Some p /\ parse p = Some r /\ accept_any_mode cfg = false /\
-    in_language T r (clean_input T cfg e) /\ ~ in_language T r (clean_input T cfg s) /\
-    cfg_explain_validation cfg = ExErr /\
-    check_response T (re_match_text T) (re_fullmatch_text T) cfg a e s = Ret zero_entry.
-Proof.
-  exists T_plain, (cfg_normal [97; 124; 98]), [97; 124; 98], (Alt (Cat Eps (lit 97)) (Cat Eps (lit 98))),
-         inferred_answer, [97], [97; 120].
-  repeat split; try reflexivity; [apply T_plain_ok | | ].
-  - apply re_fullmatch_spec. vm_compute. reflexivity.
-  - apply not_in_language. vm_compute. reflexivity.
-Qed.
+(* the old test accepted these: "ab" passes re.match("a|b$"), "x" passes re.match("^") *)
+Lemma old_test_was_not_a_fullmatch :
+  re_match_text T_plain [97; 124; 98; 36] [97; 98] = true /\ re_fullmatch_text T_plain [97; 124; 98] [97; 98] = false /\
+  re_match_text T_plain [94] [120] = true /\ re_fullmatch_text T_plain [94] [120] = false.
+Proof. vm_compute. auto. Qed.
 
-(* the proposed repair -- validate with re.fullmatch(pattern, x) instead of re.match(pattern + "$", x) -- restores
-   the claim: with the fullmatch oracle in the place of the match oracle the test IS membership in the language *)
-Theorem fullmatch_text_is_language : forall T p r x, parse p = Some r ->
-  (re_fullmatch_text T p x = true <-> in_language T r x).
-Proof. intros T p r x Hp. unfold re_fullmatch_text. rewrite Hp. apply re_fullmatch_spec. Qed.
+(* now: pattern "a|b", accept_any, submission "ab" -> InvalidInput *)
+Lemma regression_alternation :
+  check_response T_plain (re_match_text T_plain) (re_fullmatch_text T_plain) (cfg_any [97; 124; 98]) inferred_answer [] [97; 98]
+  = RaiseInvalid [98; 97; 100].
+Proof. vm_compute. reflexivity. Qed.
+
+(* pattern "^", accept_any, submission "x" -> InvalidInput *)
+Lemma regression_trailing_caret :
+  check_response T_plain (re_match_text T_plain) (re_fullmatch_text T_plain) (cfg_any [94]) inferred_answer [] [120]
+  = RaiseInvalid [98; 97; 100].
+Proof. vm_compute. reflexivity. Qed.
+
+(* normal mode, pattern "a|b", expect "a", submission "ax", explain_validation = 'err' -> InvalidInput (was: silently wrong);
+   the submissions "a" and "b" themselves are still graded: credited / wrong *)
+Lemma regression_normal_mode :
+  check_response T_plain (re_match_text T_plain) (re_fullmatch_text T_plain) (cfg_normal [97; 124; 98]) inferred_answer [97] [97; 120]
+  = RaiseInvalid [98; 97; 100]
+  /\ check_response T_plain (re_match_text T_plain) (re_fullmatch_text T_plain) (cfg_normal [97; 124; 98]) inferred_answer [97] [97]
+  = Ret (credit_of inferred_answer)
+  /\ check_response T_plain (re_match_text T_plain) (re_fullmatch_text T_plain) (cfg_normal [97; 124; 98]) inferred_answer [97] [98]
+  = Ret zero_entry.
+Proof. vm_compute. auto. Qed.
